@@ -124,6 +124,27 @@ def _is_method_call_on_first(node: ast.Call):
     return True
 
 
+def _is_plain_positional_lambda_call(node: ast.Call) -> bool:
+    """
+    Can `(lambda a, b: ...)(x, y)` be evaluated by binding the arguments to the lambda's
+    parameters one-to-one? Keyword arguments, defaults, starred arguments, etc., need python's
+    full binding rules, so those calls are left alone.
+    """
+    assert isinstance(node.func, ast.Lambda)
+    lambda_args = node.func.args
+    if len(node.keywords) > 0 or any(isinstance(a, ast.Starred) for a in node.args):
+        return False
+    if (
+        len(lambda_args.posonlyargs) > 0
+        or len(lambda_args.kwonlyargs) > 0
+        or len(lambda_args.defaults) > 0
+        or lambda_args.vararg is not None
+        or lambda_args.kwarg is not None
+    ):
+        return False
+    return len(lambda_args.args) == len(node.args)
+
+
 class simplify_chained_calls(FuncADLNodeTransformer):
     """
     In order to cleanly evaluate things like tuples (which should not show up at the back end),
@@ -424,7 +445,7 @@ class simplify_chained_calls(FuncADLNodeTransformer):
 
         Also, if this is a First() call, then move the call inside it.
         """
-        if type(call_node.func) is ast.Lambda:
+        if type(call_node.func) is ast.Lambda and _is_plain_positional_lambda_call(call_node):
             arg_asts = [self.visit(a) for a in call_node.args]
             with stack_frame(self._arg_stack):
                 for a_name, arg in zip(call_node.func.args.args, arg_asts):
